@@ -86,6 +86,11 @@ Fine(a) ==
                            \o ABlock(a[2], c, [NoDeco(a[2]) EXCEPT ![gap] = dd], Fin), opts |-> Opts0,
                   tag |-> <<"tall", a[2], d, c, gap, dd>>] : c \in 1..3, d \in 0..4, gap \in {1, 21, 22, a[2] + 1},
                                                            dd \in {<<>>, <<"comment">>, <<"blank", "blank">>}}
+                \* ... and 20 / 21 / 22 comment or blank lines before the first data row of a short block (any c, d)
+                \cup {[text |-> VBlock("NO", "SPACE") \o WBlock("null1") \o CBlock(d)
+                                \o ABlock(2, c, [NoDeco(2) EXCEPT ![1] = [q \in 1..k |-> kind]], Fin), opts |-> Opts0,
+                       tag |-> <<"tallhead", a[2], d, c, k, kind>>] : c \in 1..3, d \in 0..4, k \in {20, 21, 22},
+                                                                     kind \in (IF a[2] = 21 THEN {"comment", "blank"} ELSE {})}
            ELSE IF a[1] = "wide"
            THEN {[text |-> VBlock("NO", "SPACE") \o WBlock("null1") \o CBlock(d) \o ABlock(r, a[2], NoDeco(r), Fin), opts |-> Opts0,
                   tag |-> <<"wide", a[2], d, r>>] : d \in 0..2, r \in 1..2}
